@@ -72,7 +72,7 @@ func runProfile(j *core.Job, cc checkCfg) {
 		rep.Count(k, 0)
 	}
 	for _, bn := range j.Batches {
-		if bn == 0 {
+		if bn == 0 && cc.profile != "matrix" {
 			RunKnown(j, cc.prop)
 		}
 		cfg := gen.Swarm(prng.Derive(j.Seed, cc.prop, bn, "cfg"), cc.profile)
